@@ -13,6 +13,12 @@ CONSTANTS
   Ops = {"CtxRegister", "CtxDeregister", "Dispatch", "ModRegister", "ModStart", "DropRef", "CtxFinalize", "CtxQuit", "ModDeregister", "ModStop", "Tell", "Publish", "PublishSys", "Broadcast", "Pill", "Subscribe", "Unsubscribe"}
   CbOps = {"CtxQuit", "CtxFinalize", "ModStart", "ModRegister"}
   EvalVals = {TRUE}
+  Prios = {"N"}
+  BatchSizes = {}
+  UnstashNs = {}
+  HandlerIds = {}
+  Targets = {"A", "B"}
+  AutoVals = {TRUE, FALSE}
   Senders = {"A", "B"}
   QuitCodes = {0, 1}
   Setup = ""
